@@ -165,10 +165,8 @@ Proof.
   rewrite Hl. cbn [andb]. rewrite andb_true_r.
   rewrite zip_app by (rewrite map_length; reflexivity).
   rewrite forallb_app. rewrite !zip_map_l, !zip_same, !map_map. cbn [fst snd].
-  rewrite !forallb_forall. split.
-  - apply andb_true_iff. split; apply forallb_forall; intros p Hp; apply in_map_iff in Hp;
-      destruct Hp as (i & <- & Hi); apply iota_In in Hi; unfold union_okb; cbn [map].
-    + change (get [clen a; clen b] 0) with (Ok (clen a)). lia.
-    + change (get [clen a; clen b] 1) with (Ok (clen b)). lia.
-  - reflexivity.
+  apply andb_true_iff. split; apply forallb_forall; intros p Hp; apply in_map_iff in Hp;
+    destruct Hp as (i & <- & Hi); apply iota_In in Hi; unfold union_okb; cbn [map].
+  - change (get [clen a; clen b] 0) with (Ok (clen a)). lia.
+  - change (get [clen a; clen b] 1) with (Ok (clen b)). lia.
 Qed.
